@@ -8,8 +8,15 @@
 EXTENDS LibGen, SequencesExt
 
 Results == SetToSeq(ResultRows)
-Lists == SetToSeq({ps \in AllParamLists : Len(ps) >= 1})
-Singles == SetToSeq({<<r, <<a>>>> : r \in ResultRows, a \in Single})
+\* the rows of the other native scalar types (KindRows, KindResults) differ from int_v / int only in the type's
+\* typemap: they are paired with int_v, int and themselves only, which keeps the member at a size the compilers handle
+Core(r) == r \notin KindRows
+Lists == SetToSeq({ps \in AllParamLists : /\ Len(ps) >= 1
+                                           /\ (Len(ps) = 2 => \/ (Core(ps[1]) /\ Core(ps[2]))
+                                                               \/ ps[1] = "int_v" \/ ps[2] = "int_v" \/ ps[1] = ps[2])})
+Singles == SetToSeq({x \in {<<r, <<a>>>> : r \in ResultRows, a \in Single} :
+                        /\ (x[1] \in KindResults => x[2][1] = "int_v")
+                        /\ (x[2][1] \in KindRows => x[1] = "int")})
 Funcs == [i \in 1..Len(Lists) |-> [kind |-> "plain", result |-> Results[(i % Len(Results)) + 1], params |-> Lists[i], ndef |-> 0, tmpl |-> FALSE, gen |-> FALSE]]
          \o [i \in 1..Len(Singles) |-> [kind |-> "plain", result |-> Singles[i][1], params |-> Singles[i][2], ndef |-> 0, tmpl |-> FALSE, gen |-> FALSE]]
 Wide == [language |-> "c++", funcs |-> Funcs, class |-> TRUE, derived |-> FALSE, ns |-> TRUE,
